@@ -113,9 +113,12 @@ fn op(line: &str) -> String {
         }
         ["pathparam", h] => {
             let Some(seg) = unhex_str(h) else { return "bad-op".into() };
-            // what the routers do: match "/<seg>" with a ParamSegment, collect into ParamsMap
-            let path = format!("/{seg}");
+            // what the server does: RequestUrl::parse, then the routers match `url.path()` with a
+            // ParamSegment and collect the raw segment into a ParamsMap
+            let target = format!("/{seg}?q=1");
             let r = catch_unwind(AssertUnwindSafe(|| {
+                let url = RequestUrl::new(&target).parse().ok()?;
+                let path = url.path().to_string();
                 let m = ParamSegment("id").test(&path)?;
                 let map: ParamsMap = m.params().into_iter().collect();
                 map.get("id")
@@ -140,9 +143,15 @@ fn op(line: &str) -> String {
                 // build the map without going through `insert` a second time: a map
                 // "written to a query string" is any map value the application holds
                 let mut m = ParamsMap::new();
-                for (k, vs) in &groups {
+                for (i, (k, vs)) in groups.iter().enumerate() {
                     for v in vs {
-                        m.insert(k.clone(), Url::escape(v));
+                        if i % 2 == 0 {
+                            // a key written as a string literal in application code: Cow::Borrowed
+                            let lit: &'static str = Box::leak(k.clone().into_boxed_str());
+                            m.insert(lit, Url::escape(v));
+                        } else {
+                            m.insert(k.clone(), Url::escape(v));
+                        }
                     }
                 }
                 debug_assert_eq!(show_map(&m), show_groups(&groups));
